@@ -37,6 +37,7 @@ class Task:
         self.watch = {}
         self.label = label or key
         self.body = None
+        self.prologue = None
         self.allowed_field_writes = ()
 
 
@@ -298,6 +299,15 @@ class Engine:
         # reachability cover: requires + invariants must be satisfiable
         if ex.check_sat() == z3.unsat:
             raise PathEnd()
+        if task.prologue is not None:
+            fams = ex.families
+            ex.families = []
+            ex.in_prologue = True
+            try:
+                ctx = task.prologue(ex, ctx)
+            finally:
+                ex.families = fams
+                ex.in_prologue = False
         for fam in ex.families:
             fam.on_entry(ex, ctx)
         outcome = None
